@@ -31,8 +31,8 @@ var opNames = [...]string{"Exists", "NotExists", "Eq", "Neq", "Gt", "GtEq", "Lt"
 func (o OpKind) String() string { return opNames[o] }
 
 const (
-	Lit      = 0 // literal value
-	RefField = 1 // query.Field(name)
+	Lit       = 0 // literal value
+	RefField  = 1 // query.Field(name)
 	RefDollar = 2 // "$name"
 )
 
